@@ -155,7 +155,7 @@ def seed_part(chk: Check, maxops):
     import xarray as xr
     from glotaran.simulation import simulate
     from .lattice import build
-    cfg = f'SPECIFICATION Spec\nCONSTANTS\n  Seeds = {{1, 2}}\n  MaxOps = {maxops}\n  NoiseLen = 3\nINVARIANT Reproducible\nCHECK_DEADLOCK FALSE\n'
+    cfg = f'SPECIFICATION Spec\nCONSTANTS\n  Seeds = {{0, 1}}\n  MaxOps = {maxops}\n  NoiseLen = 3\nINVARIANT Reproducible\nCHECK_DEADLOCK FALSE\n'
     res = run_tlc("SimSeed", cfg, workers=4, timeout=600)
     require_actions(res, ["Draw", "Simulate", "SimulateUnseeded"])
     chk.add_tlc(res, "SimSeed")
